@@ -72,15 +72,58 @@ def undefined_type_packets(rng, genuine, settings):
     return out
 
 
+def unbound_port_packets(rng, genuine, settings):
+    """copies of genuine packets (any type, acknowledgements included) re-addressed to virtual ports that are not bound at the
+    receiver — the ports a client transport hands out first, and the neighbours of the genuine one: they must be dropped and forgotten"""
+    import copy
+    from nintendo.nex import prudp
+    out = []
+    try:
+        sel = prudp.PRUDPMessageSelector(settings)
+    except Exception:
+        return out
+    for g in rng.sample(genuine, min(len(genuine), 5)):
+        try:
+            pk = sel.decode(g)
+        except Exception:
+            continue
+        for p in pk[:1]:
+            for port in rng.sample([14, 13, 12, 11], 3):       # never a port a victim has bound: that would be a replay of valid traffic (C04)
+                if port == p.dest_port:
+                    continue
+                q = copy.copy(p)
+                q.dest_port = port
+                try:
+                    out.append(sel.select(p.version).encode(q))
+                except Exception:
+                    pass
+    return out
+
+
 def datagram_attack(intensity):
     def attack(sim, out, rng):
         genuine = []
+        genuine_srv = []
         net = sim.net
         out.injected = 0
+        from nintendo.nex import prudp
         def on_tx(tx):
             if tx.src == ms.ATTACKER:
                 return
             genuine.append(tx.data)
+            if tx.src == ms.SERVER:
+                genuine_srv.append(tx.data)
+                if getattr(out.spec, "reuse_transport", 0) and tx.dst != ms.ATTACKER:
+                    # network duplicates of the server's acknowledgement of a DISCONNECT: they arrive when the connection is gone and
+                    # its port is unbound (and about to be handed to the transport's next connection)
+                    try:
+                        pk = prudp.PRUDPMessageSelector(out.settings_s).decode(tx.data)
+                    except Exception:
+                        pk = []
+                    if len(pk) == 1 and pk[0].type == 3 and pk[0].flags & 1:
+                        for d in (0.02, 0.03, 0.045):
+                            net.inject(ms.SERVER, tx.dst, tx.data, d)
+                            out.injected += 1
             if rng.random() > intensity:
                 return
             victims = [a for a in net.endpoints if a not in (ms.SERVER, ms.ATTACKER)]
@@ -101,6 +144,12 @@ def datagram_attack(intensity):
                     net.inject(ms.ATTACKER, ms.SERVER, enc.encode(p), 0.001)
                     out.injected += 1
             ut = undefined_type_packets(rng, genuine, out.settings_s) if rng.random() < 0.5 else []
+            if getattr(out.spec, "reuse_transport", 0) and victims:
+                # to the clients, with the server's address: strays for ports that are not bound at this moment (between two connections
+                # of a transport that is used again, every port is unbound)
+                for payload in unbound_port_packets(rng, genuine_srv, out.settings_s):
+                    net.inject(ms.SERVER, rng.choice(victims), payload, rng.choice([0.0, 0.001, 0.03, 0.07]))
+                    out.injected += 1
             for payload in rng.sample(hostile_payloads(rng, genuine), 5) + ut:
                 mode = rng.choice(["third-to-server", "third-to-server", "spoof-victim-other-port", "to-client", "spoof-server-to-client"])
                 d = rng.choice([0.0, 0.001, 0.004])
@@ -252,9 +301,10 @@ def work_inner(args):
                 bad.append(("handler-error", "%s run: %r" % (name, se.errors[:2])))
         n = len(spec.clients)
         for i, c in enumerate(spec.clients):
-            want = [b"echo:%d:client%d:round%d:" % (c["vport"] if isinstance(c["vport"], int) else c["vport"][0], i, r) for r in range(spec.rounds)]
+            nrounds = spec.rounds * max(1, getattr(spec, "reuse_transport", 0))
+            want = [b"echo:%d:client%d:round%d:" % (c["vport"] if isinstance(c["vport"], int) else c["vport"][0], i, r) for r in range(nrounds)]
             got = ref.got.get(i, [])
-            if len(got) != spec.rounds or any(not g.startswith(w) for g, w in zip(got, want)):
+            if len(got) != nrounds or any(not g.startswith(w) for g, w in zip(got, want)):
                 bad.append(("reference", "reference run: client %d did not get its own echoes: %r" % (i, [g[:30] for g in got])))
         diff = compare_views(ms.victim_view(ref), ms.victim_view(att), {ms.ATTACKER, att.flood_addr} | set(att.probe_addrs))
         if atk[0] == "probe":
@@ -363,6 +413,10 @@ def run(ctx):
     for kind in ("partial-header", "bad-magic", "garbage-stream", "huge-announce", "never-reads"):
         for r in range(1 if quick else 4):
             jobs.append((n, st_spec, ctx.rng.getrandbits(32), ("stream", kind))); n += 1
+    # client transports that are used for several connections one after the other, with strays for their unbound ports in between
+    for sp in (dg_specs[1], dg_specs[2], dg_specs[0]) if not quick else (dg_specs[1], dg_specs[2]):
+        for r in range(1 if quick else 4):
+            jobs.append((n, dict(sp, reuse_transport=3, rounds=2), ctx.rng.getrandbits(32), ("datagram", ctx.rng.choice([0.6, 1.0])))); n += 1
     late_spec = dict(transport="lite", server_version=1, vports=[1], rounds=4,
                      clients=[dict(version=1, vport=1), dict(version=1, vport=1, start=0.5), dict(version=1, vport=1, start=0.75), dict(version=1, vport=1, start=1.0)])
     for r in range(2 if quick else 8):
